@@ -21,6 +21,7 @@ Decided:
     expanded); a queue left enabled keeps pointing at memory that is freed right afterwards.
  R8 a DMA region attached to a device resource leaves driver state only after the detach command (C20.Z4).
  R6 driver-owned buffers parked in driver state are released only after their completion was consumed (C04.P8).
+ R10 net recycle: the refusal that drops the buffer tests the slot of the newly posted token (= C16.S4 custody).
 Not decided: "every k" is not enumerated - R3/R4 make the statement independent of k.
 """
 from .common import *
@@ -108,6 +109,12 @@ def run(F, R):
     from .C08 import h0 as _h0, h1_begin_finish as _h1
     _h0(F, RuleProxy(R, {'H0': 'R9'}))
     _h1(F, RuleProxy(R, {'H1': 'R9'}))
+    # R10: a driver-owned buffer posted on a live queue is not released: the net driver's recycle refuses (dropping the by-value
+    # buffer) only on an occupancy test of the slot of the token it has just posted under - a slot that is empty whenever
+    # receive vacated it (C16.S4 custody)
+    if 'device::net::dev::VirtIONet' in F.adts:
+        from .C16 import s4_custody
+        guard(R, 'R10', 'custody', lambda: s4_custody(F, R, M, roles, rule='R10', only=('receive', 'recycle_rx_buffer')))
     # R6: a driver-owned buffer that is still posted is not released: buffers parked in driver state leave it only after
     # the completion was consumed (shared with C04.P8)
     from .C04 import p8_release_after_completion
